@@ -1123,3 +1123,474 @@ func slotsHolding(f *ssa.Function, v ssa.Value) []*ssa.Alloc {
 	})
 	return out
 }
+
+// ---------------------------------------------------------------------------------------------
+// Round 10
+
+// ruleC13OneLookupUnderTheRequestedID: a metastore answers a read (and performs a write) under the id it was asked for.
+// A method that, on a miss, calls Load / LoadLatest / Store again under a derived id (a "legacy" un-suffixed id, a
+// normalised id) returns another key's record as if it were the requested one — and reports (id, created) slots as
+// occupied that a later Store then fills.
+func ruleC13OneLookupUnderTheRequestedID(c *Ctx) {
+	u := c.U1
+	c.rule("C13.one-lookup-under-the-requested-id", "inside every Metastore implementation, a call from Load / LoadLatest / Store to a Load / LoadLatest / Store method (its own, or a wrapped metastore's) passes the caller's own key-id (and created) parameters unmodified", 0)
+	isMS := map[string]bool{"Load": true, "LoadLatest": true, "Store": true}
+	for _, m := range metastoreImpls(c) {
+		for mn := range isMS {
+			f := u.MethodOf(m.N, mn)
+			if f == nil || f.Blocks == nil {
+				continue
+			}
+			c.FuncsAnalysed[shortName(f)] = true
+			for _, g := range withAnon(f) {
+				allInstrs(g, func(i ssa.Instruction) {
+					cc := callOf(i)
+					if cc == nil {
+						return
+					}
+					name := methodNameOf(cc)
+					if !isMS[name] {
+						return
+					}
+					var args []ssa.Value
+					if cc.IsInvoke() {
+						if !typeIsNamed(cc.Value.Type(), pkgApp, "Metastore") {
+							return
+						}
+						args = cc.Args
+					} else {
+						h := cc.StaticCallee()
+						if h == nil || h.Signature.Recv() == nil || len(cc.Args) == 0 {
+							return
+						}
+						if _, isImpl := namedOf(derefType(h.Signature.Recv().Type())); !isImpl {
+							return
+						}
+						ok := false
+						for _, m2 := range metastoreImpls(c) {
+							if n, isN := namedOf(derefType(h.Signature.Recv().Type())); isN && n.Obj() == m2.N.Obj() {
+								ok = true
+							}
+						}
+						if !ok {
+							return
+						}
+						args = cc.Args[1:]
+					}
+					c.CallSites++
+					why := ""
+					for _, a := range args {
+						t := a.Type()
+						b, isB := t.Underlying().(*types.Basic)
+						if !isB || (b.Kind() != types.String && b.Kind() != types.Int64) {
+							continue
+						}
+						if p, isP := resolveCaptured(resolve(a)).(*ssa.Parameter); !isP || rootFunc(p.Parent()) != f {
+							why = describeOperand(resolve(a))
+						}
+					}
+					c.check(why == "", trimPkgDirs(shortName(f))+"/"+name+"-again", u.ipos(i), "same id and created as requested", "the metastore looks up (or writes) under "+why+" instead of the id it was asked for: the caller receives another key's record as the answer for the requested id — e.g. a record stored without the region suffix for a suffixed id, whose (id, created) a later Store then successfully inserts")
+				})
+			}
+		}
+	}
+	c.ok("metastores/second-lookups", "", "no metastore method repeats a lookup under a derived id")
+}
+
+// ruleC17KMSResponsesNotRewritten: what the KMS answered is evidence (which key produced this ciphertext); the plugins
+// compare it (the generating region's Encrypt is skipped when the response's KeyId is the client's ARN) and must not
+// overwrite it.
+func ruleC17KMSResponsesNotRewritten(c *Ctx) {
+	u := c.U1
+	c.rule("C17.kms-responses-not-rewritten", "in both KMS plugins no field of an SDK response struct (…Output) that was not allocated by the storing function is assigned: in particular GenerateDataKeyOutput.KeyId stays what the KMS reported (the skip-the-generating-region shortcut compares it with each client's ARN)", 0)
+	for _, f := range u.RepoFuncs {
+		root := rootFunc(f)
+		if root.Pkg == nil || f.Blocks == nil {
+			continue
+		}
+		if p := root.Pkg.Pkg.Path(); p != pkgKmsV1 && p != pkgKmsV2 {
+			continue
+		}
+		for _, st := range storesToForeignStructs(f, func(n *types.Named) bool {
+			return strings.HasSuffix(n.Obj().Name(), "Output") && n.Obj().Pkg() != nil && strings.Contains(n.Obj().Pkg().Path(), "/service/kms")
+		}) {
+			c.CallSites++
+			_, fld, _ := fieldAccess(st.Addr)
+			c.bad(trimPkgDirs(shortName(f))+"/response."+fld+"=", u.ipos(st), "a field of the KMS response is overwritten: the envelope logic then works with the plugin's own claim instead of what the KMS reported — with KeyId rewritten to the configured name, every region configured with the same alias is taken for the generating region, its Encrypt call is skipped and its envelope entry carries another region's ciphertext")
+		}
+	}
+	c.ok("kms/responses", "", "no KMS response field is assigned")
+}
+
+// storesToForeignStructs: stores in f to a field of a struct whose named type satisfies pred and which f did not
+// allocate itself (a value it received or was handed back by a call).
+func storesToForeignStructs(f *ssa.Function, pred func(*types.Named) bool) []*ssa.Store {
+	var out []*ssa.Store
+	allInstrs(f, func(i ssa.Instruction) {
+		st, ok := i.(*ssa.Store)
+		if !ok {
+			return
+		}
+		base, _, isF := fieldAccess(st.Addr)
+		if !isF {
+			return
+		}
+		n, isN := namedOf(derefType(base.Type()))
+		if !isN || !pred(n) {
+			return
+		}
+		if a, isA := resolve(base).(*ssa.Alloc); isA && a.Parent() == f {
+			return
+		}
+		out = append(out, st)
+	})
+	return out
+}
+
+// ruleC01LatestFetchedUnderOwnID: the SDK asks the metastore for "the latest key" only under the partition's own key id —
+// what e.partition.SystemKeyID() / IntermediateKeyID() return (or the ID of the KeyMeta a cache loader was called with).
+// A fallback lookup under another id (the un-suffixed "legacy" id when a region suffix is configured) adopts a key whose
+// record lives elsewhere: it is cached and named in new records under an (id, created) that no metastore row has, so
+// only the writing process — from its cache — can read what it writes.
+func ruleC01LatestFetchedUnderOwnID(c *Ctx) {
+	u := c.U1
+	c.rule("C01.latest-fetched-under-the-partitions-own-id", "in package appencryption the id handed to Metastore.LoadLatest is, at every call site and through every parameter, the result of SystemKeyID() / IntermediateKeyID() invoked on the envelope's partition field, or the ID field of a KeyMeta — never the id of another partition value (a type-asserted or embedded default partition) or a derived string", 2)
+	n := 0
+	for _, f := range u.RepoFuncs {
+		root := rootFunc(f)
+		if root.Pkg == nil || root.Pkg.Pkg.Path() != pkgApp || f.Blocks == nil {
+			continue
+		}
+		allInstrs(f, func(i ssa.Instruction) {
+			cc := callOf(i)
+			if cc == nil || !cc.IsInvoke() || cc.Method.Name() != "LoadLatest" || !typeIsNamed(cc.Value.Type(), pkgApp, "Metastore") || len(cc.Args) < 2 {
+				return
+			}
+			n++
+			c.CallSites++
+			c.FuncsAnalysed[shortName(f)] = true
+			why := ownKeyID(cc.Args[1], 0)
+			c.check(why == "", trimPkgDirs(shortName(f))+"/LoadLatest(id)", u.ipos(i), "the partition's own key id", "the latest key is looked up under "+why+": a key found there is adopted, cached and named in new records under the partition's current id — an (id, created) that identifies no metastore row, so no other process (and not this one after a restart) can decrypt what is written")
+		})
+	}
+	if n == 0 {
+		c.unresolved("appencryption/LoadLatest", "no Metastore.LoadLatest call in package appencryption")
+	}
+}
+
+func ownKeyID(v ssa.Value, depth int) string {
+	v = resolveCaptured(resolve(v))
+	switch x := v.(type) {
+	case *ssa.Call:
+		cc := &x.Call
+		if cc.IsInvoke() && (cc.Method.Name() == "SystemKeyID" || cc.Method.Name() == "IntermediateKeyID") {
+			if _, fld, ok := fieldAccess(strip(cc.Value)); ok && fld == "partition" {
+				return ""
+			}
+			return cc.Method.Name() + "() of " + describeOperand(cc.Value) + ", not of the envelope's partition"
+		}
+		if h := cc.StaticCallee(); h != nil {
+			return "the result of " + trimPkgDirs(shortName(h))
+		}
+		return "the result of a call (" + methodNameOf(cc) + ")"
+	case *ssa.Parameter:
+		if depth > 3 {
+			return describeOperand(x)
+		}
+		g := x.Parent()
+		idx := -1
+		for k, q := range g.Params {
+			if q == x {
+				idx = k
+			}
+		}
+		buildCallSiteIndex(g)
+		sites := callSiteIndex[orig(g)]
+		if idx < 0 || len(sites) == 0 {
+			return describeOperand(x)
+		}
+		for _, ci := range sites {
+			if idx >= len(ci.Common().Args) {
+				return describeOperand(x)
+			}
+			if why := ownKeyID(ci.Common().Args[idx], depth+1); why != "" {
+				return why
+			}
+		}
+		return ""
+	}
+	if base, fld, ok := fieldAccess(v); ok && fld == "ID" && namedTypeName(derefType(base.Type())) == "KeyMeta" {
+		return ""
+	}
+	return describeOperand(v)
+}
+
+// ruleC16EveryCloseReleasesOneUsage: the cached session object is shared by all holders of a partition; every Get counts
+// one usage (incrementUsage) and every Close gives one back. A Close that returns without the decrement on some path
+// (an "already closed" flag on the shared object, a fast path) swallows another holder's release: the count never
+// returns to zero and the teardown of the evicted session waits forever.
+func ruleC16EveryCloseReleasesOneUsage(c *Ctx) {
+	u := c.U1
+	c.rule("C16.every-close-releases-one-usage", "every path through (*sharedEncryption).Close passes the accessCounter decrement (directly or in a same-type helper), and every path through incrementUsage the increment: hand-outs and releases are counted one for one", 2)
+	for _, spec := range []struct {
+		meth string
+		op   token.Token
+		what string
+	}{{"Close", token.SUB, "decrement"}, {"incrementUsage", token.ADD, "increment"}} {
+		f := u.Method(pkgApp, "sharedEncryption", spec.meth)
+		if f == nil || f.Blocks == nil {
+			c.unresolved("sharedEncryption."+spec.meth, "method")
+			continue
+		}
+		c.FuncsAnalysed[shortName(f)] = true
+		isStep := func(i ssa.Instruction) bool {
+			st, ok := i.(*ssa.Store)
+			if !ok {
+				return false
+			}
+			_, fld, isF := fieldAccess(st.Addr)
+			b, isB := st.Val.(*ssa.BinOp)
+			return isF && fld == "accessCounter" && isB && b.Op == spec.op
+		}
+		ok, tr := mustPass(f.Blocks[0], 0, func(i ssa.Instruction) bool {
+			if isStep(i) {
+				return true
+			}
+			// a helper of the same type that performs the step on all of its paths
+			if h := staticCallee(i); h != nil && h.Blocks != nil && h.Signature.Recv() != nil && typeIsNamed(h.Signature.Recv().Type(), pkgApp, "sharedEncryption") {
+				if _, isCall := i.(*ssa.Call); isCall {
+					okh, _ := mustPass(h.Blocks[0], 0, isStep, nil)
+					return okh
+				}
+			}
+			return false
+		}, nil)
+		c.CallSites++
+		if ok {
+			c.ok("sharedEncryption."+spec.meth+"/"+spec.what, u.pos(f.Pos()), "every path counts")
+		} else {
+			c.bad("sharedEncryption."+spec.meth+"/"+spec.what, u.pos(f.Pos()), "a path through "+spec.meth+" returns without the usage "+spec.what+": the object is shared by every holder of the partition's cached session, so a skipped "+spec.what+" (e.g. behind an \"already closed\" flag that another holder's Close has set) leaves the count off by one — the evicted session is never torn down, or is torn down under a holder", u.tracePositions(tr)...)
+		}
+	}
+}
+
+// ruleC12FailedCreationReleasesOnce: on a failed creation the pages are given back by exactly one mechanism. memcall.Clean
+// unlocks and unmaps the inner pages (wiping them first on the real implementation — including memguard's canary), so a
+// LockedBuffer.Destroy after it fails its canary check and panics the process; a second Free unmaps memory that may
+// already belong to someone else.
+func ruleC12FailedCreationReleasesOnce(c *Ctx) {
+	u := c.U1
+	c.rule("C12.failed-creation-releases-once", "in the secret constructors (memguard newFromBuffer; protectedmemory New, createRandom, newSecret) no page-releasing call (memcall.Clean, Interface.Free, LockedBuffer.Destroy) is reachable after another one on the same path", 2)
+	isRelease := func(i ssa.Instruction) string {
+		cc := callOf(i)
+		if cc == nil {
+			return ""
+		}
+		if _, isCall := i.(*ssa.Call); !isCall {
+			return ""
+		}
+		if h := cc.StaticCallee(); h != nil {
+			if funcFullName(h) == pkgMemcall+".Clean" {
+				return "memcall.Clean"
+			}
+			if h.Name() == "Destroy" && h.Signature.Recv() != nil && namedTypeName(derefType(h.Signature.Recv().Type())) == "LockedBuffer" {
+				return "LockedBuffer.Destroy"
+			}
+		}
+		if cc.IsInvoke() && cc.Method.Name() == "Free" {
+			return "Free"
+		}
+		return ""
+	}
+	n := 0
+	for _, sp := range []struct{ pkg, typ, meth string }{
+		{pkgMemg, "SecretFactory", "newFromBuffer"}, {pkgProt, "SecretFactory", "New"}, {pkgProt, "SecretFactory", "createRandom"}, {pkgProt, "", "newSecret"},
+	} {
+		var f *ssa.Function
+		if sp.typ == "" {
+			f = u.Func(sp.pkg, sp.meth)
+		} else {
+			f = u.Method(sp.pkg, sp.typ, sp.meth)
+		}
+		if f == nil || f.Blocks == nil {
+			c.unresolved(sp.meth, "constructor")
+			continue
+		}
+		c.FuncsAnalysed[shortName(f)] = true
+		allInstrs(f, func(i ssa.Instruction) {
+			first := isRelease(i)
+			if first == "" {
+				return
+			}
+			n++
+			c.CallSites++
+			var second ssa.Instruction
+			found, tr := pathSearchAt(i.Block(), indexOf(i)+1, func(j ssa.Instruction) pathAction {
+				if isRelease(j) != "" {
+					second = j
+					return pathFound
+				}
+				return pathContinue
+			}, nil)
+			if found && second != nil {
+				c.bad(trimPkgDirs(shortName(f))+"/"+first+"-then-"+isRelease(second), u.ipos(second), "the pages released by "+first+" are released again by "+isRelease(second)+": with the real system calls the first release has wiped and unmapped them — the second one fails its integrity check and panics (taking every other secret of the process with it) or unmaps memory that is no longer this secret's", u.tracePositions(tr)...)
+			} else {
+				c.ok(trimPkgDirs(shortName(f))+"/"+first, u.ipos(i), "the only release on its paths")
+			}
+		})
+	}
+	if n == 0 {
+		c.unresolved("constructors/releases", "no release call found in the secret constructors")
+	}
+}
+
+// ruleC09SimpleCacheStoresWhatItIsGiven: keyCache.load creates a cache entry holding the cache's own reference to the
+// key and hands it to keys.Set; the default back end must keep it — an entry it declines (a size bound) is owned by
+// nobody, its key is never closed.
+func ruleC09SimpleCacheStoresWhatItIsGiven(c *Ctx) {
+	u := c.U1
+	c.rule("C09.simple-cache-stores-what-it-is-given", "every path through (*simpleCache).Set performs the map update s.m[key] = value with its own parameters: the default key cache back end never drops an entry it is handed (the entry carries the cache's reference to the key)", 1)
+	f := u.Method(pkgApp, "simpleCache", "Set")
+	if f == nil || f.Blocks == nil || len(f.Params) < 3 {
+		c.unresolved("simpleCache.Set", "method")
+		return
+	}
+	c.FuncsAnalysed[shortName(f)] = true
+	c.CallSites++
+	ok, tr := mustPass(f.Blocks[0], 0, func(i ssa.Instruction) bool {
+		mu, isMU := i.(*ssa.MapUpdate)
+		if !isMU {
+			return false
+		}
+		_, fld, isF := fieldAccess(strip(mu.Map))
+		return isF && fld == "m" && resolve(mu.Key) == ssa.Value(f.Params[1]) && resolve(mu.Value) == ssa.Value(f.Params[2])
+	}, nil)
+	if ok {
+		c.ok("simpleCache.Set/stores", u.pos(f.Pos()), "s.m[key] = value on every path")
+	} else {
+		c.bad("simpleCache.Set/stores", u.pos(f.Pos()), "a path through simpleCache.Set returns without storing the entry: the entry holds the cache's reference to a freshly loaded key — dropped here, nobody ever closes that key (its locked memory is held until the process ends)", u.tracePositions(tr)...)
+	}
+}
+
+// sdkLogSwitches: stores in f to a field that switches an AWS SDK client's own logging (ClientLogMode, LogLevel, Logger).
+func sdkLogSwitches(f *ssa.Function) []ssa.Instruction {
+	var out []ssa.Instruction
+	allInstrs(f, func(i ssa.Instruction) {
+		st, ok := i.(*ssa.Store)
+		if !ok {
+			return
+		}
+		if _, fld, isF := fieldAccess(st.Addr); isF && (fld == "ClientLogMode" || fld == "LogLevel") && !isNilValue(st.Val) {
+			if k, isC := constOf(st.Val); isC && k.Kind() == constant.Int && constant.Sign(k) == 0 {
+				return
+			}
+			out = append(out, i)
+		}
+	})
+	return out
+}
+
+// ruleC03SDKWireLoggingOff: the AWS SDK clients the plugins build carry plaintext data keys in their request and response
+// bodies (GenerateDataKey response, Encrypt request, Decrypt response). The plugins never switch the SDK's wire logging
+// on — whatever the SDK's logger prints would put those bodies into log lines.
+func ruleC03SDKWireLoggingOff(c *Ctx) {
+	u := c.U1
+	c.rule("C03.sdk-wire-logging-off", "no function of the KMS and DynamoDB plugins assigns an SDK configuration's ClientLogMode / LogLevel — expected count on the pinned tree: none; positive example in the self-test fixtures", 0)
+	for _, f := range u.RepoFuncs {
+		root := rootFunc(f)
+		if root.Pkg == nil || f.Blocks == nil {
+			continue
+		}
+		switch root.Pkg.Pkg.Path() {
+		case pkgKmsV1, pkgKmsV2, pkgDynV1, pkgDynV2:
+		default:
+			continue
+		}
+		for _, i := range sdkLogSwitches(f) {
+			c.CallSites++
+			c.bad(trimPkgDirs(shortName(f))+"/sdk-log-mode", u.ipos(i), "the plugin switches the AWS SDK client's own request/response logging on: KMS GenerateDataKey / Decrypt responses and Encrypt requests carry the plaintext data key in their bodies, which the SDK then writes to the log")
+		}
+	}
+	c.ok("plugins/sdk-logging", "", "no plugin touches the SDK's log mode")
+}
+
+// ruleC17EveryEnvelopeEntryConsidered: unwrapping looks at every entry the stored envelope carries. A decoded entry list
+// that is re-sliced before the region→entry map is built (a "bound" by the number of configured clients) drops the
+// entries beyond the cut: a reader configured with fewer regions than the writer cannot unwrap although its region has
+// an entry (and the re-slice panics when the envelope has fewer entries than the bound).
+func ruleC17EveryEnvelopeEntryConsidered(c *Ctx) {
+	u := c.U1
+	c.rule("C17.every-envelope-entry-considered", "in both KMS plugins every range / index over a slice of envelope entries (structs with Region and EncryptedKEK) runs over the list as it was decoded or built — never over a re-slice of it", 2)
+	isKEKSlice := func(t types.Type) bool {
+		sl, ok := t.Underlying().(*types.Slice)
+		if !ok {
+			return false
+		}
+		st, ok := derefType(sl.Elem()).Underlying().(*types.Struct)
+		if !ok {
+			return false
+		}
+		has := map[string]bool{}
+		for i := 0; i < st.NumFields(); i++ {
+			has[st.Field(i).Name()] = true
+		}
+		return has["Region"] && has["EncryptedKEK"]
+	}
+	n := 0
+	for _, f := range u.RepoFuncs {
+		root := rootFunc(f)
+		if root.Pkg == nil || (root.Pkg.Pkg.Path() != pkgKmsV1 && root.Pkg.Pkg.Path() != pkgKmsV2) || f.Blocks == nil {
+			continue
+		}
+		allInstrs(f, func(i ssa.Instruction) {
+			var base ssa.Value
+			switch x := i.(type) {
+			case *ssa.IndexAddr:
+				base = x.X
+			case *ssa.Index:
+				base = x.X
+			case *ssa.Range:
+				base = x.X
+			default:
+				return
+			}
+			if !isKEKSlice(base.Type()) {
+				return
+			}
+			n++
+			c.CallSites++
+			c.FuncsAnalysed[shortName(f)] = true
+			resliced := false
+			seen := map[ssa.Value]bool{}
+			var walk func(v ssa.Value, d int)
+			walk = func(v ssa.Value, d int) {
+				v = resolve(v)
+				if seen[v] || d > 4 {
+					return
+				}
+				seen[v] = true
+				switch x := v.(type) {
+				case *ssa.Slice:
+					if _, isArr := derefType(x.X.Type()).Underlying().(*types.Array); !isArr && (x.Low != nil || x.High != nil) {
+						resliced = true
+					}
+				case *ssa.Phi:
+					for _, e := range x.Edges {
+						walk(e, d+1)
+					}
+				case *ssa.UnOp:
+					if a, isA := x.X.(*ssa.Alloc); isA && x.Op == token.MUL {
+						for _, s := range localStores(a) {
+							walk(s, d+1)
+						}
+					}
+				}
+			}
+			walk(base, 0)
+			c.check(!resliced, trimPkgDirs(shortName(f))+"/entries["+describeOperand(base)+"]", u.ipos(i), "the whole entry list", "the envelope's entries are cut down before they are looked at: entries beyond the cut are never matched to a configured region — a reader whose region's entry sits there cannot unwrap the key although that region is able to decrypt (and an envelope with fewer entries than the bound panics the re-slice)")
+		})
+	}
+	if n == 0 {
+		c.unresolved("kms/entry-loops", "no element access into an envelope entry slice found")
+	}
+}
